@@ -10,8 +10,8 @@
 #include "parsec/parsec_internal.h"
 #include "parsec/arena.h"
 #include "parsec/data_dist/matrix/matrix.h"
-extern void c22_reduce_body(void *A, void *B, void *C, void *neutral);
-#define printf(...) c22_reduce_body(A, B, C, ELEM_NEUTRE)
+extern void c22_reduce_body(void *A, void *B, void *C, void *neutral, int l, int p, int depth);
+#define printf(...) c22_reduce_body(A, B, C, ELEM_NEUTRE, l, p, depth)
 #include "c22red.c"
 #undef printf
 parsec_taskpool_t *c22_reduce_tree_new(parsec_tiled_matrix_t *A, parsec_tiled_matrix_t *R, void *neutral)
